@@ -107,29 +107,7 @@ fn big_cfg_of(c: &BigCase, frac: u8, scale: usize) -> Cfg {
     Cfg { k: cfg.k, r: cfg.r, b }
 }
 
-/// global budget so that parallel workers do not hold tens of GiB at once
-fn with_memory_budget<T>(bytes: usize, f: impl FnOnce() -> T) -> T {
-    use std::sync::{Condvar, Mutex};
-    static BUDGET: Mutex<usize> = Mutex::new(10 << 30);
-    static CV: Condvar = Condvar::new();
-    let want = bytes.min(10 << 30);
-    {
-        let mut g = BUDGET.lock().unwrap();
-        while *g < want {
-            g = CV.wait(g).unwrap();
-        }
-        *g -= want;
-    }
-    struct Give(usize);
-    impl Drop for Give {
-        fn drop(&mut self) {
-            *BUDGET.lock().unwrap() += self.0;
-            CV.notify_all();
-        }
-    }
-    let _give = Give(want);
-    f()
-}
+use crate::runner::with_memory_budget;
 
 fn check_big(c: &BigCase, st: &mut Stats) -> CheckResult {
     warm_tables();
